@@ -171,7 +171,7 @@ class Dataset(collection.Collection):
 
         memo = dict()
         if sort_by is not None:
-            sort_idx = np.argsort(np.asarray(getattr(self, sort_by)), kind="stable")
+            sort_idx = np.argsort(np.asarray(self[sort_by]), kind="stable")
 
             for field in self._fields.values():
                 field.subset(sort_idx, memo)
